@@ -8,7 +8,7 @@ use crate::subscriptions::subscription_manager::SubscriptionManagerDelegate;
 use crate::subscriptions::{
     AckId, DeadlineModification, PulledMessage, SubscriptionName, SubscriptionStats,
 };
-use crate::topics::{Topic, TopicMessage};
+use crate::topics::{RemoveSubscriptionError, Topic, TopicMessage};
 use std::cmp::Ordering;
 use std::collections::HashMap;
 use std::sync::{Arc, Weak};
@@ -191,12 +191,34 @@ impl Subscription {
 
     /// Deletes the subscription.
     pub async fn delete(&self) -> Result<(), DeleteError> {
-        let (responder, recv) = oneshot::channel();
-        self.sender
-            .send(SubscriptionRequest::Delete { responder })
-            .await
-            .map_err(|_| DeleteError::Closed)?;
-        recv.await.map_err(|_| DeleteError::Closed)?
+        let topic = self.topic.upgrade();
+        let name = self.name.clone();
+        let sender = self.sender.clone();
+
+        // The deletion runs in a task of its own. The subscription actor must never wait
+        // for the topic actor (which waits for the subscription's mailbox while publishing),
+        // and the deletion must complete as a whole even if the caller goes away.
+        let deletion = tokio::spawn(async move {
+            // If the topic is still around, remove the subscription from its list of
+            // subscriptions first, so that nothing further is posted to it.
+            if let Some(topic) = topic {
+                topic
+                    .remove_subscription(name)
+                    .await
+                    .map_err(|e| match e {
+                        RemoveSubscriptionError::Closed => DeleteError::Closed,
+                    })?;
+            }
+
+            let (responder, recv) = oneshot::channel();
+            sender
+                .send(SubscriptionRequest::Delete { responder })
+                .await
+                .map_err(|_| DeleteError::Closed)?;
+            recv.await.map_err(|_| DeleteError::Closed)?
+        });
+
+        deletion.await.unwrap_or(Err(DeleteError::Closed))
     }
 }
 
